@@ -343,6 +343,13 @@ def _history(w, h, res, dry, out):
         for name, tag in converged:
             mine = set(p.pid for p in k.procs.values() if p.tag == tag)
             extra = [e for e in k.log[l0:] if e[1] in ('spawn', 'signal') and e[2] in mine]
+            conf_ = [c for c in h['watchers'] if c['name'] == name][0]
+            if extra and conf_.get('max_age') and \
+                    w.clock.wall_offset >= conf_['max_age'] - conf_.get('max_age_variance', 30) - 600:
+                # the wall clock was stepped forward by more than max_age: by the daemon's clock the workers ARE too
+                # old, their replacement is "a max_age expiry", which the statement allows
+                res.obs['fixpoint_not_judged(max_age_reached_by_wall_clock_steps)'] += 1
+                continue
             if extra:
                 res.violation('C01/fixpoint:' + extra[0][1], 'idle periodic checks on converged watcher %s '
                               'produced %s' % (name, extra[:3]), steps=real_steps)
